@@ -7,7 +7,7 @@ from .. import runner, cdfspec as cs
 from ..runner import Case
 
 ENV = dict(os.environ, OMPI_ALLOW_RUN_AS_ROOT="1", OMPI_ALLOW_RUN_AS_ROOT_CONFIRM="1", ASAN_OPTIONS="detect_leaks=0:abort_on_error=0",
-           UBSAN_OPTIONS="print_stacktrace=1", TMPDIR="/dev/shm")
+           UBSAN_OPTIONS="print_stacktrace=1", TMPDIR="/dev/shm", ROMIO_HINTS=os.path.join(runner.VERIF, "driver", "romio_hints.txt"))
 MPI = ["mpiexec", "--oversubscribe", "--mca", "io", "romio321", "--mca", "btl", "self,vader", "-n"]
 CDLTYPE = {1: "byte", 2: "char", 3: "short", 4: "int", 5: "float", 6: "double", 7: "ubyte", 8: "ushort", 9: "uint", 10: "int64", 11: "uint64"}
 
@@ -183,6 +183,17 @@ class C20(Check):
             if len(nm0) % 4:
                 poff = toff + 4 + nn + nn + len(nm0)
                 bb = bytearray(b); bb[poff] = 0x41; muts.append(("name-padding", bytes(bb)))
+            # non-zero padding after an attribute name / attribute values, in every attribute that has padding (first, middle
+            # or last of its list: the verdict must not depend on what follows)
+            toks = cs.decode_tokens(b)
+            padt = [(o, n, w) for (o, n, w) in toks if n > 0 and w == "att padding"]
+            attnames = []
+            for ti, (o, n, w) in enumerate(toks):
+                if w == "att type" and ti >= 1 and toks[ti - 1][2] == "name padding" and toks[ti - 1][1] > 0:
+                    attnames.append(toks[ti - 1])
+            for k, (o, n, w) in enumerate((padt + attnames)[:6]):
+                bb = bytearray(b); bb[o + n - 1] = 0x01
+                muts.append(("att-padding%d" % k, bytes(bb)))
             if sl.vars:
                 s2 = copy.deepcopy(sl)
                 for v in s2.vars:
